@@ -50,9 +50,12 @@ func (f *Tagbody) Call(s *slip.Scope, args slip.List, depth int) slip.Object {
 	ns.TagBody = true
 	d2 := depth + 1
 	for i := 0; i < len(args); i++ {
-		if gt, _ := slip.EvalArg(ns, args, i, d2).(*GoTo); gt != nil {
+		switch tr := slip.EvalArg(ns, args, i, d2).(type) {
+		case *slip.ReturnResult:
+			return tr
+		case *GoTo:
 			for i++; i < len(args); i++ {
-				if args[i] == gt.Tag {
+				if args[i] == tr.Tag {
 					break
 				}
 			}
